@@ -38,3 +38,11 @@ CASES += [
       "            data = numpy.zeros(shp,dtype=self.data.dtype)\n            data[:,1] = self.data",
       "            data = numpy.zeros(shp,dtype=numpy.result_type(axis.data, self.data))\n            data[:,1] = self.data"),
 ]
+
+DFN = "quantarhei/core/dfunction.py"
+CASES += [
+    {"name": "copy hook rebuilds the interpolation from the axis property", "kind": "mutant", "rule": "C18-F", "edits": [
+        (DFN, "    def _set_splines(self):", "    def __deepcopy__(self, memo):\n        import copy\n        new = self.__class__.__new__(self.__class__)\n        new.__dict__.update({k: copy.deepcopy(v, memo) for k, v in self.__dict__.items() if not k.startswith(\"_spline\")})\n        if getattr(self, \"_splines_initialized\", False):\n            new._set_splines()\n        return new\n\n    def _set_splines(self):", 1)]},
+    {"name": "state hook that only restores the dictionary", "kind": "twin", "edits": [
+        (DFN, "    def _set_splines(self):", "    def __setstate__(self, state):\n        self.__dict__.update(state)\n\n    def _set_splines(self):", 1)]},
+]
